@@ -194,8 +194,21 @@ CHECKS["C07"] = {
             "(such entries are only produced by the node itself). The log-manager loop that feeds records to the loader is not under contract.",
 }
 
+CHECKS["C01"] = {
+    "text": "Partial. Proof (Verus, unbounded) of the restart DISPATCH on the real RaftDataHandler, with the ghost effect log of T17: build_snapshot asks each of the seven components "
+            "exactly once to write its state to THE writer; load_snapshot hands every snapshot record, unchanged, to the component that owns its tree (config rows and the config id "
+            "counter to the config actor, named sequences to the sequence table, users / old cache rows to the table manager under their own table name, namespaces, MCP, persistent "
+            "instances, cache to theirs) and to nobody else; load_complete announces the end once to each waiting component; load_log / LogRecordLoaderInstance::load replay a stored "
+            "record as exactly the messages of its request (shared with C07). The record CODECS of the components and the snapshot file format are outside Verus (prost / quick-protobuf "
+            "/ serde, async file actors): they are covered by an always-on BOUNDED stand-in that writes a real snapshot file from real component actors, restores it into fresh "
+            "actors, replays the rest of the log and compares every observable answer (9240 history x compaction-point runs) — labelled bounded, not proof.",
+    "note": "Not covered: the FileStore / RaftSnapshotManager / RaftLogManager actor chains that pick the snapshot file and the log range at start-up, partial snapshot files of an "
+            "interrupted compaction, crash points (C04); the log itself is C02/C03. Known finding S20: the id counter of a table is not in the snapshot (latent: no caller issues "
+            "table ids in this version). The direct cache (sessions) is not in the statement's list and is not compared; it does lose every entry at restore "
+            "(CacheValue::to_do writes timeout 0), noted in DESIGN as an observation.",
+}
+
 NOT_APPLICABLE = {
-    "C01": "equation between the states of seven actors across stop/restart; effects travel through Addr::send futures — no function-shaped contract can state it (DESIGN §6)",
     "C04": "crash points between file writes of several actors need a crash-Hoare logic over an external resource; neither Verus nor Kani models intermediate disk states (DESIGN §6)",
     "C06": "multi-process cluster, fault schedules and eventual convergence (liveness); async-raft internals are an external crate (DESIGN §6)",
     "C08": "snapshot installation across processes through actix future chains whose only effects are messages to other actors (DESIGN §6)",
